@@ -79,6 +79,8 @@ OPTIONS = [
     ('offset-1', dict(max_iter=3, failures='ignore', offset=-1)),
     ('offset+1', dict(max_iter=3, failures='ignore', offset=1)),
     ('min>max', dict(max_iter=2, min_iter=3)),
+    ('min>max+offset', dict(max_iter=2, min_iter=3, offset=-1)),
+    ('pre-nan+offset', dict(max_iter=3, failures='ignore', offset=1)),
     ('pre-nan', dict(max_iter=3, failures='ignore')),
     ('raise', dict(max_iter=2)),
 ]
@@ -90,7 +92,7 @@ def build(p):
 
 
 def fresh(Model, n):
-    m = Model(range(100, 100 + n))
+    m = Model(range(-2, n - 2))  # the span contains the label 0 (a falsy label) away from its ends
     for j, name in enumerate(m.names):
         m[name] = [0.5 + 0.25 * j + 0.125 * k for k in range(n)]
     return m
@@ -125,6 +127,9 @@ def run_case(case, p=None, Model=None):
     if optname == 'pre-nan' and 0 <= pos < n:
         m[endo[0]][pos] = np.nan
         kw['errors'] = case.get('errors', 'raise')
+    if optname == 'pre-nan+offset' and 0 <= pos + 1 < n:
+        m[endo[0]][pos + 1] = np.nan  # the non-finite value sits in the period the offset copies FROM
+        kw['errors'] = 'raise'
     before = snapshot(m)
     recarray.install(m)
     del recarray.LOG[:]
@@ -135,7 +140,19 @@ def run_case(case, p=None, Model=None):
     out = []
     feasible = lags <= pos < n - leads
     offset = kw.get('offset', 0)
-    rejected_upfront = (optname == 'min>max') or (offset and not (0 <= pos + offset < n)) or (optname == 'pre-nan' and kw.get('errors') == 'raise')
+    rejected_upfront = (optname.startswith('min>max')) or (offset and not (0 <= pos + offset < n)) or (optname == 'pre-nan' and kw.get('errors') == 'raise')
+    if optname == 'pre-nan+offset':
+        # rejected (pre-existing non-finite check value once the offset copy is made); the copied endogenous values at t are the only change allowed
+        if not feasible_pos(lags, leads, pos, n) or not (0 <= pos + 1 < n):
+            pass
+        else:
+            out = []
+            if res in ('True', 'False'):
+                out.append(('not-rejected:pre-nan+offset', 'SolutionError', res, 'non-finite check values copied in by the offset must be rejected under errors=raise'))
+            stray = ch - {(nm, pos) for nm in endo}
+            if stray:
+                out.append(('rejected-but-changed:pre-nan+offset', [], sorted(stray)[:4], 'a rejected call changed cells other than the offset copy'))
+            return out, 'rejected'
     # 1. exogenous / parameter / error series never change
     non_endo = [x for x in ch if x[0] not in endo and x[0] not in ('status', 'iterations')]
     if non_endo:
@@ -185,6 +202,10 @@ def run_case(case, p=None, Model=None):
 
 
 @robust()
+def feasible_pos(lags, leads, pos, n):
+    return lags <= pos < n - leads
+
+
 def run_solve_case(case, p=None, Model=None):
     """solve(start, end): touches only [start..end]; an infeasible start/end is rejected, not wrapped."""
     if p is None:
